@@ -48,10 +48,17 @@ def ext_specs(tier):
             out += list(itertools.permutations(range(len(xs)), n)) if n <= 1 or tier == "thorough" else list(itertools.combinations(range(len(xs)), n))
         return out
 
-    tds = subsets(TYPE_DEFS, min(k, 2))
+    tds = subsets(TYPE_DEFS, 2 if tier == "quick" else 3)
     ods = subsets(OP_DEFS, k)
-    vs = [(), (0,), (1,), (0, 1)]
+    vs = [(), (0,), (1,), (0, 1)] + ([(1, 0)] if tier == "thorough" else [])
     i = 0
+    if tier == "thorough":
+        # the full version x requirement product over a reduced definition alphabet
+        for td in subsets(TYPE_DEFS, 1):
+            for od in subsets(OP_DEFS, 1):
+                for ver in VERSIONS:
+                    for rq in REQS:
+                        yield [list(td), list(od), [0], ver, rq]
     for td in tds:
         for od in ods:
             for v in vs:
